@@ -210,14 +210,19 @@ def stepAux (s : ISrc) (t : Nat) (c : FCfg) (core' : Cfg) : FCfg × List Ev × B
             | _ => (c, x, evs, false)
           | .none => (c, x, evs, false)
           | .panic =>
-            -- unwinding: a partly collected `fetch_n` Vec drops its elements; a loop-owned buffer is dropped
+            -- unwinding starts: a partly collected `fetch_n` Vec drops its elements first (innermost frame);
+            -- then the unwind guard's store is the thread's next scheduling point
             let dropped : List Nat :=
               match r with
               | .chunk _ => acc
-              | .buffered _ _ => if isLoopOp then (match x.lbuf with | some l => somes l | none => []) else []
               | _ => []
-            ({ c with dr := c.dr ++ (if s.owning then dropped else []) },
-              { x with dead := true, lbuf := none }, evs ++ dropEvs s dropped ++ [Ev.panic "probe"], true)
+            ({ c with dr := c.dr ++ (if s.owning then dropped else []) }, x, evs ++ dropEvs s dropped, false)
+        | .unw _ _ =>
+          -- the guard has stored `completed`; unwinding continues: a loop-owned buffer is dropped, the op ends
+          let dropped : List Nat :=
+            if isLoopOp then (match x.lbuf with | some l => somes l | none => []) else []
+          ({ c with dr := c.dr ++ (if s.owning then dropped else []) },
+            { x with dead := true, lbuf := none }, evs ++ dropEvs s dropped ++ [Ev.panic "probe"], true)
         | _ => (c, x, evs, false)
       if died then (setD c t x, evs, true) else
       match newOut with
